@@ -1,6 +1,6 @@
 /-
   Model of `clean_composite_curve_ends`, `clean_composite_curve` (`OpenPinch/utils/miscellaneous.py`,
-  after the `rtol=0` fix) and of `_rdp` (`OpenPinch/utils/stream_linearisation.py`, after the 2-D
+  after the `rtol=0` fix and the removal of repeated points) and of `_rdp` (`OpenPinch/utils/stream_linearisation.py`, after the 2-D
   cross-product fix).  Perpendicular distances are compared through their squares, so no square
   root is needed: `|cross| / len > eps  ⇔  cross² > eps²·len²` (for `eps ≥ 0`, `len > 0`).
 -/
@@ -39,12 +39,21 @@ def keepInterior (tol : Rat) : List (Rat × Rat) → List (Rat × Rat)
       if tol < rabs (y2 - yi) then (x2, y2) :: tail else tail
   | _ => []
 
+/-- Remove a point that repeats its predecessor exactly (`distinct` in the code). -/
+def dedupAdj : List (Rat × Rat) → List (Rat × Rat)
+  | a :: b :: rest => if b.1 = a.1 ∧ b.2 = a.2 then dedupAdj (a :: rest) else a :: dedupAdj (b :: rest)
+  | l => l
+termination_by l => l.length
+
 /-- `clean_composite_curve(y_array, x_array)` → kept `(x, y)` points. -/
 def cleanCurve (tol : Rat) (y x : List Rat) : Except Err (List (Rat × Rat)) := do
   match ← cleanEndsIdx tol x with
   | none => pure []
   | some (s, e) =>
-    let pts := ((x.zip y).drop s).take (e + 1 - s)
+    let pts0 := ((x.zip y).drop s).take (e + 1 - s)
+    if pts0.length ≤ 2 then pure pts0
+    else
+    let pts := dedupAdj pts0
     if pts.length ≤ 2 then pure pts
     else
       match pts.head?, pts.getLast? with
